@@ -13,13 +13,14 @@ LEVEL = "exploration"
 RULE = ("well-formed server streams of 5..80 def*/set*/delProperty/message/ping/getProperties messages over a small universe (2 devices "
         "x 3 properties x 3 elements + unknown names) so that redefinition with another kind, partial updates, kind mismatches, "
         "unknown targets, empty and absent BLOB payloads and whole-device deletion all occur; written in foreign spellings, "
-        "arbitrarily fragmented and fed to the real client ConnectionHandler.wait_for_messages (threshold enabled and disabled); second "
-        "and third mode: straight into BaseClient.process_message and into a SnoopingClient. After EVERY message the client's public "
+        "arbitrarily fragmented and fed to the real client ConnectionHandler.wait_for_messages (threshold enabled and disabled); further "
+        "modes: straight into BaseClient.process_message, into a SnoopingClient, and into the real two-connection Client started through "
+        "Client.start() whose BLOB connection comes up 0..40 loop iterations late. After EVERY message the client's public "
         "view is compared with an independent reference interpreter; the receive-loop task must stay alive, nothing may be raised, "
         "every Buffer.process call runs under a step budget. non-trivial = a stream in which at least 3 messages changed the mirror; "
         "distinct = hash(stream, spelling seed, fragmentation, mode)")
 ASSUMPTIONS = ["messages on a control-mode connection stay below its 2048-character threshold (BLOB-mode connections get payloads up to 6000 bytes)", "BLOB sizes in the stream are consistent with their payloads"]
-REQUIRED_EVENTS = ["streams", "messages_applied", "views_compared", "wire_mode_streams", "direct_mode_streams", "snoop_mode_streams",
+REQUIRED_EVENTS = ["streams", "messages_applied", "views_compared", "wire_mode_streams", "direct_mode_streams", "snoop_mode_streams", "client_mode_streams",
                    "whole_device_deletions", "redefinitions", "empty_blob_payloads"]
 QUICK_SHARDS = 4
 FRAGS = ["whole", "1", "random", "small", 1024]
@@ -39,6 +40,31 @@ async def run_stream(ctx, case):
         loop = asyncio.get_running_loop()
         mon = LoopMonitor(loop)
         task = None
+        conns = None
+        if mode == "client-start":
+            # the real two-connection Client, started through Client.start() over in-memory connections; its BLOB connection takes
+            # `blob_delay` loop iterations to come up while the server already answers on the control connection
+            from indi.client.client import Client
+            from indi.transport.client.tcp import ConnectionHandler as CH
+
+            class MemConn:
+                def __init__(self, delay):
+                    self.delay, self.reader, self.handler = delay, None, None
+
+                async def connect(self, callback, for_blobs=False):
+                    for _ in range(self.delay):
+                        await asyncio.sleep(0)
+                    self.reader = asyncio.StreamReader()
+                    self.handler = CH(self.reader, FakeWriter("c"), callback, for_blobs=for_blobs)
+                    return self.handler
+
+            conns = (MemConn(0), MemConn(case.get("blob_delay", 0)))
+            client = Client(*conns)
+            start_task = loop.create_task(client.start())
+            for _ in range(5):
+                await asyncio.sleep(0)
+                if conns[0].reader is not None:
+                    break
         if mode.startswith("wire"):
             from indi.transport.client.tcp import ConnectionHandler
             reader = asyncio.StreamReader()
@@ -72,7 +98,31 @@ async def run_stream(ctx, case):
                 ctx.count("empty_blob_payloads")
             mcase = dict(case, message_index=k)
             detail = {"message": text, "previous_messages": len(msgs[:k])}
-            if mode.startswith("wire"):
+            if mode == "client-start":
+                data = text.encode("latin1", "xmlcharrefreplace")
+                target = conns[0]
+                if am["tag"] == "setBLOBVector":
+                    for _ in range(500):                       # payloads travel on the BLOB connection, once it is up
+                        if conns[1].reader is not None:
+                            break
+                        await asyncio.sleep(0)
+                    target = conns[1]
+                target.reader.feed_data(data)
+                for _ in range(6):
+                    await asyncio.sleep(0)
+                for _ in range(500):                           # nothing is judged before Client.start() has returned
+                    if start_task.done():
+                        break
+                    await asyncio.sleep(0)
+                for _ in range(6):
+                    await asyncio.sleep(0)
+                failed = mon.failed()
+                if failed:
+                    ctx.violate(f"receive-loop-ended:client-start:{failed[0][0].split('.')[-1]}",
+                                f"after message {k} ({am['tag']}), BLOB connection up after {case.get('blob_delay', 0)} iterations: {failed[0][0]} ended with {failed[0][1]}",
+                                mcase, detail)
+                    return changed
+            elif mode.startswith("wire"):
                 data = text.encode("latin1", "xmlcharrefreplace")
                 pos = 0
                 while pos < len(data):
@@ -142,12 +192,13 @@ def one_case(ctx, case):
 
 def run(ctx):
     n = 1500 if not ctx.thorough else 60000
-    modes = ["wire", "wire", "wire-blobs", "direct", "snoop"]
+    modes = ["wire", "wire", "wire-blobs", "direct", "snoop", "client-start"]
     for i in range(n):
         if not ctx.mine(i):
             continue
         rng = ctx.rng("plan", i)
-        one_case(ctx, {"i": i, "n": rng.choice([5, 10, 20, 40, 80]), "mode": modes[i % len(modes)], "frag": FRAGS[(i // len(modes)) % len(FRAGS)]})
+        one_case(ctx, {"i": i, "n": rng.choice([5, 10, 20, 40, 80]), "mode": modes[i % len(modes)], "frag": FRAGS[(i // len(modes)) % len(FRAGS)],
+                       "blob_delay": rng.choice([0, 1, 3, 10, 40])})
         if ctx.enough():
             break
 
